@@ -447,3 +447,11 @@ SUBS = [
     Sub("indices", sub_indices, st_case, 2000, 100000, nontrivial=_nontrivial),
     Sub("bulk", sub_bulk, st_bulk, 40, 1500, nontrivial=lambda c: True, shards_quick=4),
 ]
+
+
+# ---- association as evo_traj requests it: several trajectories synchronised with one reference ---------------------
+from vf.checks import c15 as _c15
+SUBS.append(Sub("cli_sync", _c15.sub_traj, _c15.make_st_case(
+    fmt=st.sampled_from(["tum", "tum", "euroc"]), has_ref=st.just(True), sync=st.just(True), ntraj=st.sampled_from([1, 2, 3]), tf=st.none(),
+    align_mode=st.just("none"), correct_scale=st.just(False), project=st.none(), downsample=st.none(), mf=st.none()), 300, 8000,
+    nontrivial=lambda c: len(c["trajs"]) >= 2, shards_quick=4))
